@@ -624,6 +624,7 @@ func (r *runner) runReload(mode string, stored []bool) (st reloadStats) {
 	// ---- ask everything on the loaded cache
 	fp := make([]byte, 0, 300)
 	phase := "asked after the round trip"
+	var lostBy map[uint32]int64 // stored answers not found after the round trip, by type<<16|class
 	for k := 0; k < n; k++ {
 		i := at(k)
 		s := &r.specs[i]
@@ -657,6 +658,11 @@ func (r *runner) runReload(mode string, stored []bool) (st reloadStats) {
 		if !fromCache {
 			if expect {
 				st.lostStored++
+				noteCached(s, false)
+				if lostBy == nil {
+					lostBy = map[uint32]int64{}
+				}
+				lostBy[uint32(s.Type)<<16|uint32(s.Class)]++
 			} else {
 				st.missesUnstored++
 			}
@@ -684,6 +690,7 @@ func (r *runner) runReload(mode string, stored []bool) (st reloadStats) {
 		if hit {
 			if expect {
 				st.expectedHit++
+				noteCached(s, true)
 			}
 			pc := plenClass(plen)
 			st.hitsByPLen[pc]++
@@ -694,8 +701,9 @@ func (r *runner) runReload(mode string, stored []bool) (st reloadStats) {
 			rep.Nontrivial("reload/" + string(fp))
 		}
 	}
-	if st.expected > 0 && st.expectedHit*1000 < st.expected*990 {
-		incon("only %d of the %d ordinary queries whose answers were stored before the dump were answered from the loaded cache (< 99%%): collisions could hide behind the lost entries (dump held %d entries)", st.expectedHit, st.expected, en)
+	if st.expected > 0 {
+		deferGuard(fmt.Sprintf("reload %s (%s, %s order), queries whose answers were stored before the dump", fam, mode, []string{"insertion", "reverse"}[r.order]),
+			fmt.Sprintf(": collisions could hide behind the lost entries (dump held %d entries)", en), st.expected, lostBy)
 	}
 	return st
 }
